@@ -335,8 +335,7 @@ Proof.
       assert (B1 : tblend <= soh1 <= soh).
       { unfold soh1. destruct (pe_sec_before_hdr_end ptr soh) eqn:E3; cbn [andb]; autounfold with pegen in *; zb; cbv iota; lia. }
       destruct (pe_sec_not_last i nsec && pe_aligns_mid_sections).
-      * destruct (falign =? 0); try discriminate.
-        destruct (adjust_secs r (i + 1) nsec tblend falign soh1) as [[s2 h2]| |] eqn:E; cbn [bind fst snd] in H; try discriminate.
+      * destruct (adjust_secs r (i + 1) nsec tblend falign soh1) as [[s2 h2]| |] eqn:E; cbn [bind fst snd] in H; try discriminate.
         inversion H; subst. destruct (IH _ _ _ _ _ _ _ E (proj1 B1) Hr) as [B N]. split; [lia|].
         constructor; [cbn [snd]; apply align32_nonneg; exact Hx|exact N].
       * destruct (adjust_secs r (i + 1) nsec tblend falign soh1) as [[s2 h2]| |] eqn:E; cbn [bind fst snd] in H; try discriminate.
